@@ -357,13 +357,14 @@ namespace hv
     struct Timer0
     {
         static constexpr auto name = "hv_timer0";
-        static void start(Scalar<"id", Int> id, NodeScheduler s) { u_start(id.value()); timer_run_ops(id.value(), 0, s, true); }
+        static void start(Scalar<"id", Int> id, NodeScheduler s, State<Int> n) { n.set(Int{0}); u_start(id.value()); timer_run_ops(id.value(), 0, s, true); }
         static void stop(Scalar<"id", Int> id) { u_stop(id.value()); }
-        static void eval(Scalar<"id", Int> id, NodeScheduler s, DateTime now, Out<TS<Int>> out)
+        static void eval(Scalar<"id", Int> id, NodeScheduler s, DateTime now, State<Int> n, Out<TS<Int>> out)
         {
             u_eval(id.value(), now, "[]");
             g_faults.maybe_throw(id.value(), PH_EVAL);
-            const long long k = g_eval_count[id.value()];
+            n.set(n.get() + 1);   // evaluation count is per node instance (duplicates with equal ids must not share it)
+            const long long k = n.get();
             timer_run_ops(id.value(), k, s, false);
             out.set(Int{k});
             u_out(id.value(), now, k);
@@ -372,17 +373,38 @@ namespace hv
     struct Timer1
     {
         static constexpr auto name = "hv_timer1";
-        static void start(Scalar<"id", Int> id, NodeScheduler s) { u_start(id.value()); timer_run_ops(id.value(), 0, s, true); }
+        static void start(Scalar<"id", Int> id, NodeScheduler s, State<Int> n) { n.set(Int{0}); u_start(id.value()); timer_run_ops(id.value(), 0, s, true); }
         static void stop(Scalar<"id", Int> id) { u_stop(id.value()); }
-        static void eval(In<"x", TS<Int>, InputValidity::Unchecked> x, Scalar<"id", Int> id, NodeScheduler s, DateTime now, Out<TS<Int>> out)
+        static void eval(In<"x", TS<Int>, InputValidity::Unchecked> x, Scalar<"id", Int> id, NodeScheduler s, DateTime now, State<Int> n, Out<TS<Int>> out)
         {
             InLog il;
             il.add(x);
             u_eval(id.value(), now, il.done());
             g_faults.maybe_throw(id.value(), PH_EVAL);
-            const long long k = g_eval_count[id.value()];
+            n.set(n.get() + 1);
+            const long long k = n.get();
             timer_run_ops(id.value(), k, s, false);
             const long long v = norm(k * 1000 + (x.valid() ? static_cast<long long>(x.value()) : -1));
+            out.set(Int{v});
+            u_out(id.value(), now, v);
+        }
+    };
+
+    struct Timer1V
+    {   // as Timer1 but the input is required valid: never sampled while x holds no value
+        static constexpr auto name = "hv_timer1v";
+        static void start(Scalar<"id", Int> id, NodeScheduler s, State<Int> n) { n.set(Int{0}); u_start(id.value()); timer_run_ops(id.value(), 0, s, true); }
+        static void stop(Scalar<"id", Int> id) { u_stop(id.value()); }
+        static void eval(In<"x", TS<Int>> x, Scalar<"id", Int> id, NodeScheduler s, DateTime now, State<Int> n, Out<TS<Int>> out)
+        {
+            InLog il;
+            il.add(x);
+            u_eval(id.value(), now, il.done());
+            g_faults.maybe_throw(id.value(), PH_EVAL);
+            n.set(n.get() + 1);
+            const long long k = n.get();
+            timer_run_ops(id.value(), k, s, false);
+            const long long v = norm(k * 1000 + static_cast<long long>(x.value()));
             out.set(Int{v});
             u_out(id.value(), now, v);
         }
@@ -481,6 +503,14 @@ namespace hv
         static SP compose(Wiring &w, SP x, Scalar<"p", Int> p, Scalar<"q", Int> q, Scalar<"id", Int> id)
         {
             return wire<Timer1>(w, x, Int{id.value() * 10 + 1});
+        }
+    };
+    struct SgSchedV
+    {   // scheduler-scripted node whose boundary input is required valid
+        static constexpr auto name = "hv_sg_schedv";
+        static SP compose(Wiring &w, SP x, Scalar<"p", Int> p, Scalar<"q", Int> q, Scalar<"id", Int> id)
+        {
+            return wire<Timer1V>(w, x, Int{id.value() * 10 + 1});
         }
     };
     struct SgDeep
